@@ -255,7 +255,9 @@ func TestParallelRender(t *testing.T) {
 		}
 		// every lattice node must have been evaluated on THIS object: a worker that evaluates a batch
 		// on some other shape leaves a hole in the record (and a wrong value in the renderer's layer)
-		if len(rb.Pts) > 0 {
+		if len(rb.Pts) == 0 {
+			rec.Violation(t, "C10:"+class+":lattice-nodes-not-evaluated-on-this-shape", "%s, %d cells: the renderer returned %d triangles without evaluating the shape being rendered a single time", desc, cells, len(ts))
+		} else {
 			h := sz.MaxComponent() / float64(cells)
 			ax := lat.AxesOf3(rb.Pts, 1e-9*h)
 			uniq := map[v3.Vec]struct{}{}
